@@ -84,6 +84,46 @@ struct Sigma3Decrypt<'a> {
     signature: OctetStr<'a>,
 }
 
+/// Verification hooks (feature `verif`): the derived `from_tlv` of the private Sigma1 / Sigma3
+/// request structures, field by field.
+#[cfg(feature = "verif")]
+pub fn verif_dec_sigma1<R>(
+    data: &[u8],
+    f: impl FnOnce(
+        &[u8],
+        u16,
+        &[u8],
+        &[u8],
+        Option<crate::sc::VerifSessionParams>,
+        Option<&[u8]>,
+        Option<&[u8]>,
+    ) -> R,
+) -> Result<R, Error> {
+    let v = Sigma1Req::from_tlv(&TLVElement::new(data))?;
+    Ok(f(
+        v.initiator_random.0,
+        v.initiator_sessid,
+        v.dest_id.0,
+        v.peer_pub_key.0,
+        v.session_parameters.as_ref().map(|s| s.verif_fields()),
+        v.resumption_id.as_ref().map(|o| o.0),
+        v.initiator_resume_mic.as_ref().map(|o| o.0),
+    ))
+}
+
+#[cfg(feature = "verif")]
+pub fn verif_dec_sigma3<R>(
+    data: &[u8],
+    f: impl FnOnce(&[u8], Option<&[u8]>, &[u8]) -> R,
+) -> Result<R, Error> {
+    let v = Sigma3Decrypt::from_tlv(&TLVElement::new(data))?;
+    Ok(f(
+        v.initiator_noc.0,
+        v.initiator_icac.as_ref().map(|o| o.0),
+        v.signature.0,
+    ))
+}
+
 /// The CASE Responder (device side) handler
 pub struct CaseResponder<'a, C: Crypto> {
     crypto: &'a C,
